@@ -12,6 +12,14 @@
 //	            from what the same tree answers for the same URL once
 //	            discovery.Run has returned.
 //
+//	Calls       every tree call of the flush in order (kind, URL, look-up answer);
+//	EndKeys     for every URL of those calls, what the wrapped tree answers once
+//	            discovery.Run has returned (the "recorded oracle").
+//
+// Calls and EndKeys go to Coq for the flushes in which the tree reported no
+// convergence (SettleCalls.v, run_settle_calls): flush_tree / flush_calls are
+// evaluated on the same batch over the oracle and must give exactly these calls.
+//
 // HEAD inserts every URL of the batch first, so the grouping pass runs on a tree
 // that holds the whole batch and (for a tree that keeps what it holds) no longer
 // moves (C15_grouping_settled).  A flush that grouped BEFORE the tree had been
@@ -23,6 +31,7 @@ package main
 
 import (
 	"fmt"
+	"strings"
 
 	c "verifharness/common"
 )
@@ -45,6 +54,22 @@ func observeSettle(bo *BatchObs, rt *recTree, size, n, nE, nC int) {
 	}
 	if len(looks) > 2*n {
 		looks = looks[len(looks)-2*n:]
+	}
+	// the calls one by one, and what the tree answers for each of their URLs now
+	// that Run has returned (SettleCalls.v: the recorded oracle)
+	bo.Calls = append([]treeEvent(nil), ev...)
+	have := map[string]bool{}
+	for _, e := range ev {
+		if have[e.url] {
+			continue
+		}
+		have[e.url] = true
+		r := rt.inner.Lookup(e.url) // the wrapped tree itself: not recorded
+		now := e.url
+		if r.Match {
+			now = r.NormalizedURL
+		}
+		bo.EndKeys = append(bo.EndKeys, Pair{e.url, now})
 	}
 	seen := map[string]bool{}
 	for _, e := range looks {
@@ -78,18 +103,167 @@ func unsettledFlush(r *RunObs) (int, *BatchObs) {
 	return -1, nil
 }
 
-// wire format of Settle.v (run_settle): runs n, then per run: flushes n, then
-// size accepted state_empty rekeyed pre unsettled
-func coqSettle(k *Case) string {
-	out := []int64{int64(len(k.Runs))}
+// Suite "settle" as declared to the framework: since Extension 3 the cases are
+// evaluated by SettleCalls.v (run_settle_calls), which keeps the demands of
+// run_settle and adds the tree calls one by one.
+const (
+	settleImports = "From Coq Require Import Uint63.\nFrom Verif Require Import C15.Model C15.Settle C15.SettleCalls."
+	settleRunFn   = "run_settle_calls"
+)
+
+// what reaches GetUpdatedAggregations of a batch, as (URL, consumer tag): the
+// non-internal records with their key fields made valid UTF-8, "" reads "N/A".
+// Used only to work out the HINT (the order in which the per-consumer grouping
+// met the tags); the model recomputes all of it from the records as logged.
+func acceptedOf(batch []Rec) (urls, tags []string) {
+	for _, r := range batch {
+		if r.Internal {
+			continue
+		}
+		tg := strings.ToValidUTF8(r.Cons, "\uFFFD")
+		if tg == "" {
+			tg = "N/A"
+		}
+		urls = append(urls, strings.ToValidUTF8(r.URL, "\uFFFD"))
+		tags = append(tags, tg)
+	}
+	return
+}
+
+// tagOrder: an arrangement of the consumer tags of the batch such that the
+// URLs of the records, tag by tag in that order, are the sequence seen (the
+// URLs of the last len(urls) look-ups of the flush).  Go map order decides it
+// in the code.  No such arrangement: order of first appearance (the model will
+// then disagree with the recorded calls).
+func tagOrder(urls, tags []string, seen []string) []string {
+	var order []string
+	by := map[string][]string{}
+	for i, tg := range tags {
+		if _, ok := by[tg]; !ok {
+			order = append(order, tg)
+		}
+		by[tg] = append(by[tg], urls[i])
+	}
+	if len(seen) != len(urls) {
+		return order
+	}
+	used := map[string]bool{}
+	var out []string
+	var rec func(pos int) bool
+	rec = func(pos int) bool {
+		if len(out) == len(order) {
+			return pos == len(seen)
+		}
+		for _, tg := range order {
+			if used[tg] {
+				continue
+			}
+			us := by[tg]
+			if pos+len(us) > len(seen) {
+				continue
+			}
+			ok := true
+			for j, u := range us {
+				if seen[pos+j] != u {
+					ok = false
+					break
+				}
+			}
+			if !ok {
+				continue
+			}
+			used[tg] = true
+			out = append(out, tg)
+			if rec(pos + len(us)) {
+				return true
+			}
+			used[tg] = false
+			out = out[:len(out)-1]
+		}
+		return false
+	}
+	if rec(0) {
+		return append([]string(nil), out...)
+	}
+	return order
+}
+
+// wire format of SettleCalls.v (psettle): strs; recs (url tag internal); runs n,
+// per run flushes n, per flush: size state_empty rekeyed pre unsettled,
+// calls (one number each: kind + 4*url + 2^22*key), oracle (url + 2^20*key), hint
+func coqSettleCalls(o *c.Out, k *Case) string {
+	var strs section
+	str := func(x string) int64 {
+		it := []int64{int64(len(x))}
+		for i := 0; i < len(x); i++ {
+			it = append(it, int64(x[i]))
+		}
+		return strs.put(it)
+	}
+	recs := []int64{int64(len(k.Records))}
+	for _, r := range k.Records {
+		recs = append(recs, str(r.URL), str(r.Cons), b2i(r.Internal))
+	}
+	runs := []int64{int64(len(k.Runs))}
 	for _, r := range k.Runs {
-		out = append(out, int64(len(r.Batches)))
+		runs = append(runs, int64(len(r.Batches)))
+		prev := 0
 		for _, b := range r.Batches {
-			out = append(out, int64(b.Size), int64(b.Accepted), b2i(b.StateEmpty), b2i(b.Converged), int64(b.PreInserts), int64(len(b.Unsettled)))
+			runs = append(runs, int64(b.Size), b2i(b.StateEmpty), b2i(b.Converged), int64(b.PreInserts), int64(len(b.Unsettled)))
+			end := prev + b.Size
+			if end > len(k.Records) {
+				end = len(k.Records)
+			}
+			batch := k.Records[prev:end]
+			prev = end
+			if b.Converged { // a re-keying pass: finding F-C15, the calls are not given to the model
+				runs = append(runs, 0, 0, 0)
+				continue
+			}
+			o.Count("flush:tree-calls-evaluated")
+			runs = append(runs, int64(len(b.Calls)))
+			var lookURLs []string
+			for _, e := range b.Calls {
+				switch e.kind {
+				case "conv-insert":
+					runs = append(runs, 0+4*str(e.url))
+				case "insert":
+					runs = append(runs, 1+4*str(e.url))
+				default:
+					runs = append(runs, 2+4*str(e.url)+(str(e.res)<<22))
+					lookURLs = append(lookURLs, e.url)
+				}
+			}
+			runs = append(runs, int64(len(b.EndKeys)))
+			for _, p := range b.EndKeys {
+				runs = append(runs, str(p.From)+(str(p.To)<<20))
+			}
+			urls, tags := acceptedOf(batch)
+			if len(lookURLs) >= len(urls) {
+				lookURLs = lookURLs[len(lookURLs)-len(urls):]
+			}
+			hint := tagOrder(urls, tags, lookURLs)
+			runs = append(runs, int64(len(hint)))
+			for _, tg := range hint {
+				runs = append(runs, str(tg))
+			}
+			if len(hint) > 1 {
+				o.Count("flush:tree-calls-evaluated:several-consumer-tags")
+			}
 		}
 	}
+	if len(strs.items) >= 1<<20 {
+		panic("too many strings in a settle case")
+	}
+	var out []int64
+	out = strs.flat(out)
+	out = append(out, recs...)
+	out = append(out, runs...)
 	it := make([]string, len(out))
 	for i, v := range out {
+		if v < 0 {
+			panic("negative number in a settle case")
+		}
 		it[i] = fmt.Sprintf("%d", v)
 	}
 	return "(" + c.List(it) + ")%uint63"
@@ -121,6 +295,9 @@ func emitSettle(o *c.Out, k *Case) {
 				}
 			}
 			o.Count(fmt.Sprintf("flush:unsettled=%v", len(b.Unsettled) > 0))
+			if b.Converged {
+				o.Count(fmt.Sprintf("flush:convergence-reported:stored-keys-to-re-key=%v,unsettled=%v", !b.StateEmpty, len(b.Unsettled) > 0))
+			}
 			if b.Size > 0 && b.PreInserts != b.Accepted {
 				o.Count("flush:tree-not-pre-normalised")
 			}
@@ -129,7 +306,7 @@ func emitSettle(o *c.Out, k *Case) {
 	if grouped {
 		o.Count("stream:first-flush-on-empty-state-converges-alone")
 	}
-	o.Case("settle", coqSettle(&kk), slim(&kk), first && grouped)
+	o.Case("settle", coqSettleCalls(o, &kk), slim(&kk), first && grouped)
 }
 
 // ---------------------------------------------------------------- generators
